@@ -708,6 +708,7 @@ class Verifier(Exec):
             scope = scope_key
         # locals visible by declaration position
         byname = {}
+        tgt_ = {}
         for n, (comment, pos, etid) in self.cellinfo.items():
             if comment:
                 byname.setdefault(comment, []).append((pos, n))
@@ -728,6 +729,7 @@ class Verifier(Exec):
             if target is None:
                 continue
             env[name] = ('lazy', (lambda n_: (lambda st_: self.load_local(st_, n_)))(target))
+            tgt_[name] = target
             if target not in self.cellset:
                 env['&' + name] = ('lazy', (lambda n_: (lambda st_: st_.regs.get(n_)))(target))
         for p in self.fn['params']:
@@ -739,8 +741,12 @@ class Verifier(Exec):
         for gn_ in getattr(self, 'ghost_vars', []):
             env[gn_] = ('lazy', (lambda n_: (lambda st_: st_.ghost.get('gv:' + n_, ZERO)))(gn_))
         # contracts written before a local was renamed: the old name denotes the renamed variable
+        def dpos_(n_):
+            l_, c_ = self.cellinfo[n_][1].split(':')
+            return (int(l_), int(c_))
         for on_, nn_ in (getattr(self, 'local_alias', None) or {}).items():
-            if nn_ in env and on_ not in env:
+            shadow_ = nn_ in tgt_ and on_ in tgt_ and dpos_(tgt_[nn_]) > dpos_(tgt_[on_])     # it used to shadow the other one
+            if nn_ in env and (on_ not in env or shadow_):
                 env[on_] = env[nn_]
                 if ('&' + nn_) in env:
                     env['&' + on_] = env['&' + nn_]
